@@ -236,6 +236,14 @@ func (p *processor) process(in ion.Reader) error {
 			}
 		}
 
+		if in.IsNull() && in.Type() != ion.NullType {
+			// A typed null: the value accessors below would return nil.
+			if err := p.out.WriteNullType(in.Type()); err != nil {
+				return p.error(write, err)
+			}
+			continue
+		}
+
 		switch in.Type() {
 		case ion.NullType:
 			err = p.out.WriteNull()
